@@ -1,7 +1,7 @@
 (* C04 lifted to whole worlds: the specification machine run with the real
    storage kinds and run with plain maps produce the same outputs (slice views
    aside) on every history, and their panic flags agree. *)
-From SV Require Import Base.ListX Store.Raw Store.Masked Store.StoreInv World.Env World.StoreSim World.WorldSpec.
+From SV Require Import Base.ListX Store.Raw Store.Masked Store.StoreInv World.Env World.Join World.JoinPres World.StoreSim World.WorldSpec.
 
 Definition store_rel (oa ob : option mstore) : Prop :=
   match oa, ob with
@@ -13,7 +13,8 @@ Definition store_rel (oa ob : option mstore) : Prop :=
 Record env_rel (e1 e2 : senv) : Prop := {
   ER_table : se_table e1 = se_table e2;
   ER_stores : forall sid, store_rel (NM.find sid (se_stores e1)) (NM.find sid (se_stores e2));
-  ER_stuck : cx_stuck (se_cx e1) = cx_stuck (se_cx e2) }.
+  ER_stuck : cx_stuck (se_cx e1) = cx_stuck (se_cx e2);
+  ER_cs : se_cs e1 = se_cs e2 }.
 
 Lemma env_rel_init : env_rel (env_init false) (env_init true).
 Proof. split; cbn; auto. Qed.
@@ -21,12 +22,12 @@ Proof. split; cbn; auto. Qed.
 Lemma env_rel_put e1 e2 sid a b c1 c2 : env_rel e1 e2 -> srel a b -> cx_stuck c1 = cx_stuck c2 ->
   env_rel (env_put e1 sid a c1) (env_put e2 sid b c2).
 Proof.
-  intros [T S K] H Hc. split; cbn [env_put se_table se_stores se_cx]; auto.
+  intros [T S K C] H Hc. split; cbn [env_put se_table se_stores se_cx]; auto.
   intros j. rewrite !find_add. destruct (N.eq_dec sid j); [exact H | apply S].
 Qed.
 
 Lemma env_rel_cx e1 e2 c1 c2 : env_rel e1 e2 -> cx_stuck c1 = cx_stuck c2 -> env_rel (env_cx e1 c1) (env_cx e2 c2).
-Proof. intros [T S K] Hc. split; cbn; auto. Qed.
+Proof. intros [T S K C] Hc. split; cbn; auto. Qed.
 
 Lemma env_rel_begin e1 e2 : env_rel e1 e2 -> env_rel (env_begin e1) (env_begin e2).
 Proof. intros H. unfold env_begin. apply env_rel_cx; [assumption|]. cbn. apply (ER_stuck _ _ H). Qed.
@@ -42,7 +43,7 @@ Qed.
 Lemma env_register_rel e1 e2 sid : env_rel e1 e2 -> se_ideal e1 = false -> se_ideal e2 = true ->
   env_rel (env_register e1 sid) (env_register e2 sid).
 Proof.
-  intros H I1 I2. pose proof H as [T S K]. unfold env_register. destruct (kind_of sid) as [[k w]|]; [|apply env_rel_fail; assumption].
+  intros H I1 I2. pose proof H as [T S K C]. unfold env_register. destruct (kind_of sid) as [[k w]|]; [|apply env_rel_fail; assumption].
   rewrite T, I1, I2. split; cbn [se_table se_stores se_cx]; auto.
   intros j. specialize (S sid). pose proof (ER_stores _ _ H j) as Sj.
   destruct (NM.find sid (se_stores e1)) as [a|] eqn:E1; destruct (NM.find sid (se_stores e2)) as [b|] eqn:E2; cbn in S; try contradiction.
@@ -79,7 +80,7 @@ Qed.
 Lemma delete_components_rel e1 e2 ents : env_rel e1 e2 ->
   env_rel (env_delete_components e1 ents) (env_delete_components e2 ents).
 Proof.
-  intros [T S K]. unfold env_delete_components. rewrite T.
+  intros [T S K C]. unfold env_delete_components. rewrite T.
   destruct (purge_tbl_rel (se_table e2) (se_stores e1) (se_stores e2) (map fst ents) (se_cx e1) (se_cx e2) S K) as [P1 P2].
   destruct (env_purge_tbl (se_stores e1) (se_table e2) (map fst ents) (se_cx e1)) as [s1' c1'].
   destruct (env_purge_tbl (se_stores e2) (se_table e2) (map fst ents) (se_cx e2)) as [s2' c2'].
@@ -126,6 +127,238 @@ Proof.
   cbn [fst snd]. split; [reflexivity|]. apply env_register_rel; assumption.
 Qed.
 
+
+(* ------------------------------------------------------------------ *)
+(* joins: the guarded primitives, then everything built from them *)
+
+Lemma ms_jact_pair a b act ca cb : srel a b -> cx_stuck ca = cx_stuck cb ->
+  snd (fst (ms_jact a act ca)) = snd (fst (ms_jact b act cb)) /\
+  srel (fst (fst (ms_jact a act ca))) (fst (fst (ms_jact b act cb))) /\
+  cx_stuck (snd (ms_jact a act ca)) = cx_stuck (snd (ms_jact b act cb)).
+Proof.
+  intros H Hc. pose proof (srel_mask a b H) as Em. destruct act as [i|i touch d|i]; cbn [ms_jact].
+  - rewrite <- Em. destruct (NS.mem i (ms_mask a)) eqn:Hm.
+    + destruct (srel_get a b i ca cb H Hm) as [G1 [G2 G3]].
+      destruct (u_get (ms_raw a) i ca) as [ta ca']. destruct (u_get (ms_raw b) i cb) as [tb cb'].
+      cbn [fst snd] in *. subst. auto.
+    + cbn [fst snd]. auto.
+  - rewrite <- Em. destruct (NS.mem i (ms_mask a)) eqn:Hm.
+    + destruct (srel_get a b i ca cb H Hm) as [G1 [G2 G3]].
+      destruct (u_get (ms_raw a) i ca) as [ta ca']. destruct (u_get (ms_raw b) i cb) as [tb cb'].
+      cbn [fst snd] in *. subst.
+      pose proof (access_pair a b i touch (match d with Some z => USetVal (snd tb + z) | None => UNone end) ca cb H Hm) as X.
+      destruct (w_access_mut a i touch _ ca) as [[a' xa] ca']. destruct (w_access_mut b i touch _ cb) as [[b' xb] cb'].
+      destruct X as [X1 [X2 [X3 X4]]]; [destruct d; exact I|]. cbn [fst snd]. subst. auto.
+    + cbn [fst snd]. auto.
+  - pose proof (m_remove_pair a b i ca cb H) as X.
+    destruct (m_remove a i ca) as [[a' oa] ca']. destruct (m_remove b i cb) as [[b' ob] cb'].
+    destruct X as [X1 [X2 [X3 X4]]]. subst ob. destruct oa; cbn [fst snd]; (split; [reflexivity|]); (split; [assumption|]); cbn; congruence.
+Qed.
+
+Lemma env_jact_rel e1 e2 sid act : env_rel e1 e2 ->
+  snd (env_jact e1 sid act) = snd (env_jact e2 sid act) /\ env_rel (fst (env_jact e1 sid act)) (fst (env_jact e2 sid act)).
+Proof.
+  intros H. unfold env_jact. pose proof (ER_stores _ _ H sid) as Ss.
+  destruct (NM.find sid (se_stores e1)) as [a|]; destruct (NM.find sid (se_stores e2)) as [b|]; cbn in Ss; try contradiction.
+  - destruct (ms_jact_pair a b act (se_cx e1) (se_cx e2) Ss (ER_stuck _ _ H)) as [X1 [X2 X3]].
+    destruct (ms_jact a act (se_cx e1)) as [[a' ta] ca]. destruct (ms_jact b act (se_cx e2)) as [[b' tb] cb].
+    cbn [fst snd] in *. split; [assumption|]. apply env_rel_put; assumption.
+  - cbn [fst snd]. split; [reflexivity | apply env_rel_fail; assumption].
+Qed.
+
+Lemma env_mask_rel e1 e2 sid : env_rel e1 e2 -> env_mask e1 sid = env_mask e2 sid.
+Proof.
+  intros H. unfold env_mask. pose proof (ER_stores _ _ H sid) as Ss.
+  destruct (NM.find sid (se_stores e1)) as [a|]; destruct (NM.find sid (se_stores e2)) as [b|]; cbn in Ss; try contradiction.
+  - apply srel_mask. assumption.
+  - reflexivity.
+Qed.
+
+Lemma cs_get_rel e1 e2 k : env_rel e1 e2 -> cs_get e1 k = cs_get e2 k.
+Proof. intros H. unfold cs_get. rewrite (ER_cs _ _ H). reflexivity. Qed.
+
+Lemma env_rel_cs_put e1 e2 k m : env_rel e1 e2 -> env_rel (cs_put e1 k m) (cs_put e2 k m).
+Proof. intros [T S K C]. split; cbn [cs_put se_table se_stores se_cx se_cs]; auto. rewrite C. reflexivity. Qed.
+
+Lemma m_has_rel e1 e2 eids m i : env_rel e1 e2 -> m_has e1 eids m i = m_has e2 eids m i.
+Proof.
+  intros H. destruct m; cbn [m_has]; rewrite ?(env_mask_rel e1 e2 _ H), ?(cs_get_rel e1 e2 _ H); reflexivity.
+Qed.
+
+Lemma all_have_rel e1 e2 eids ms i : env_rel e1 e2 -> all_have e1 eids ms i = all_have e2 eids ms i.
+Proof.
+  intros H. unfold all_have. induction ms as [|m r IH]; cbn [forallb]; [reflexivity|].
+  rewrite (m_has_rel e1 e2 eids m i H), IH. reflexivity.
+Qed.
+
+Lemma first_cands_rel e1 e2 eids ms : env_rel e1 e2 -> first_cands e1 eids ms = first_cands e2 eids ms.
+Proof.
+  intros H. induction ms as [|m r IH]; cbn [first_cands]; [reflexivity|].
+  assert (m_cands e1 eids m = m_cands e2 eids m) as ->.
+  { destruct m; cbn [m_cands]; rewrite ?(env_mask_rel e1 e2 _ H), ?(cs_get_rel e1 e2 _ H); reflexivity. }
+  rewrite IH. reflexivity.
+Qed.
+
+Lemma jkeys_rel e1 e2 eids ms : env_rel e1 e2 -> jkeys e1 eids ms = jkeys e2 eids ms.
+Proof.
+  intros H. unfold jkeys. rewrite (first_cands_rel e1 e2 eids ms H).
+  destruct (first_cands e2 eids ms) as [l|]; [|reflexivity]. f_equal.
+  apply filter_ext. intros i. apply all_have_rel. assumption.
+Qed.
+
+Lemma others_lookup_rel av hs sid mutably l : forall e1 e2, env_rel e1 e2 ->
+  snd (others_lookup av hs sid mutably l e1) = snd (others_lookup av hs sid mutably l e2) /\
+  env_rel (fst (others_lookup av hs sid mutably l e1)) (fst (others_lookup av hs sid mutably l e2)).
+Proof.
+  induction l as [|h l IH]; intros e1 e2 H; cbn [others_lookup]; [cbn [fst snd]; auto|].
+  destruct (pv_get hs (N.of_nat h)) as [ent|].
+  - rewrite (env_mask_rel e1 e2 sid H). destruct (NS.mem (fst ent) (env_mask e2 sid) && av_alive av ent).
+    + destruct (env_jact_rel e1 e2 sid (if mutably then JAccess (fst ent) false None else JRead (fst ent)) H) as [X1 X2].
+      destruct (env_jact e1 sid _) as [a1 t1]. destruct (env_jact e2 sid _) as [a2 t2]. cbn [fst snd] in *. subst t2.
+      destruct (IH a1 a2 X2) as [Y1 Y2].
+      destruct (others_lookup av hs sid mutably l a1) as [b1 r1]. destruct (others_lookup av hs sid mutably l a2) as [b2 r2].
+      cbn [fst snd] in *. subst. auto.
+    + destruct (IH e1 e2 H) as [Y1 Y2].
+      destruct (others_lookup av hs sid mutably l e1) as [b1 r1]. destruct (others_lookup av hs sid mutably l e2) as [b2 r2].
+      cbn [fst snd] in *. subst. auto.
+  - destruct (IH e1 e2 H) as [Y1 Y2].
+    destruct (others_lookup av hs sid mutably l e1) as [b1 r1]. destruct (others_lookup av hs sid mutably l e2) as [b2 r2].
+    cbn [fst snd] in *. subst. auto.
+Qed.
+
+Lemma m_get_rel av hs excl eids m i : forall e1 e2, env_rel e1 e2 ->
+  snd (m_get av hs excl eids m i e1) = snd (m_get av hs excl eids m i e2) /\
+  env_rel (fst (m_get av hs excl eids m i e1)) (fst (m_get av hs excl eids m i e2)).
+Proof.
+  induction m as [sid|sid touch d| |l|sid|m IH|sid mode selmod selrem d others|k mode d|sid]; intros e1 e2 H; cbn [m_get].
+  - destruct (env_jact_rel e1 e2 sid (JRead i) H) as [X1 X2].
+    destruct (env_jact e1 sid _) as [a1 t1]. destruct (env_jact e2 sid _) as [a2 t2]. cbn [fst snd] in *. subst. auto.
+  - destruct (env_jact_rel e1 e2 sid (JAccess i touch d) H) as [X1 X2].
+    destruct (env_jact e1 sid _) as [a1 t1]. destruct (env_jact e2 sid _) as [a2 t2]. cbn [fst snd] in *. subst. auto.
+  - cbn [fst snd]. auto.
+  - cbn [fst snd]. auto.
+  - cbn [fst snd]. auto.
+  - rewrite (m_has_rel e1 e2 eids m i H). destruct (m_has e2 eids m i); [|cbn [fst snd]; auto].
+    destruct (IH e1 e2 H) as [X1 X2].
+    destruct (m_get av hs excl eids m i e1) as [a1 x1]. destruct (m_get av hs excl eids m i e2) as [a2 x2].
+    cbn [fst snd] in *. subst. auto.
+  - destruct (env_jact_rel e1 e2 sid (JRead i) H) as [X1 X2].
+    destruct (env_jact e1 sid (JRead i)) as [a1 t1]. destruct (env_jact e2 sid (JRead i)) as [a2 t2]. cbn [fst snd] in *. subst t2.
+    assert (env_rel (if N.eqb mode 1 && N.eqb (N.modulo i selmod) selrem then fst (env_jact a1 sid (JAccess i true (Some d))) else a1)
+                    (if N.eqb mode 1 && N.eqb (N.modulo i selmod) selrem then fst (env_jact a2 sid (JAccess i true (Some d))) else a2)) as X3.
+    { destruct (N.eqb mode 1 && N.eqb (N.modulo i selmod) selrem); [|assumption].
+      apply (env_jact_rel a1 a2 sid (JAccess i true (Some d)) X2). }
+    destruct (negb (N.eqb mode 1) || excl); [|cbn [fst snd]; auto].
+    destruct (others_lookup_rel av hs sid (N.eqb mode 1 && Z.odd d) others _ _ X3) as [Y1 Y2].
+    destruct (others_lookup av hs sid _ others _) as [b1 r1]. destruct (others_lookup av hs sid _ others _) as [b2 r2].
+    cbn [fst snd] in *. subst. auto.
+  - rewrite (cs_get_rel e1 e2 k H). destruct (NM.find i (cs_get e2 k)) as [a|]; cbn [fst snd].
+    + split; [reflexivity|]. destruct (N.eqb mode 1); [apply env_rel_cs_put; assumption|].
+      destruct (N.eqb mode 2); [apply env_rel_cs_put; assumption | assumption].
+    + split; [reflexivity | apply env_rel_fail; assumption].
+  - destruct (env_jact_rel e1 e2 sid (JRemove i) H) as [X1 X2].
+    destruct (env_jact e1 sid _) as [a1 t1]. destruct (env_jact e2 sid _) as [a2 t2]. cbn [fst snd] in *. subst. auto.
+Qed.
+
+Lemma visit_members_rel av hs excl eids ms i : forall e1 e2, env_rel e1 e2 ->
+  snd (visit_members av hs excl eids ms i e1) = snd (visit_members av hs excl eids ms i e2) /\
+  env_rel (fst (visit_members av hs excl eids ms i e1)) (fst (visit_members av hs excl eids ms i e2)).
+Proof.
+  induction ms as [|m r IH]; intros e1 e2 H; cbn [visit_members]; [cbn [fst snd]; auto|].
+  destruct (m_get_rel av hs excl eids m i e1 e2 H) as [X1 X2].
+  destruct (m_get av hs excl eids m i e1) as [a1 x1]. destruct (m_get av hs excl eids m i e2) as [a2 x2]. cbn [fst snd] in *. subst x2.
+  destruct (IH a1 a2 X2) as [Y1 Y2].
+  destruct (visit_members av hs excl eids r i a1) as [b1 r1]. destruct (visit_members av hs excl eids r i a2) as [b2 r2].
+  cbn [fst snd] in *. subst. auto.
+Qed.
+
+Lemma visit_keys_rel av hs excl eids ms keys : forall e1 e2, env_rel e1 e2 ->
+  snd (visit_keys av hs excl eids ms keys e1) = snd (visit_keys av hs excl eids ms keys e2) /\
+  env_rel (fst (visit_keys av hs excl eids ms keys e1)) (fst (visit_keys av hs excl eids ms keys e2)).
+Proof.
+  induction keys as [|i keys IH]; intros e1 e2 H; cbn [visit_keys]; [cbn [fst snd]; auto|].
+  destruct (visit_members_rel av hs excl eids ms i e1 e2 H) as [X1 X2].
+  destruct (visit_members av hs excl eids ms i e1) as [a1 x1]. destruct (visit_members av hs excl eids ms i e2) as [a2 x2].
+  cbn [fst snd] in *. subst x2.
+  destruct (IH a1 a2 X2) as [Y1 Y2].
+  destruct (visit_keys av hs excl eids ms keys a1) as [b1 r1]. destruct (visit_keys av hs excl eids ms keys a2) as [b2 r2].
+  cbn [fst snd] in *. subst. auto.
+Qed.
+
+Lemma consume_cs_rel ms : forall e1 e2, env_rel e1 e2 -> env_rel (consume_cs ms e1) (consume_cs ms e2).
+Proof.
+  induction ms as [|m r IH]; intros e1 e2 H; cbn [consume_cs]; [assumption|].
+  destruct m; try (apply IH; assumption).
+  apply IH. destruct (N.eqb mode 2); [apply env_rel_cs_put|]; assumption.
+Qed.
+
+Lemma m_registered_rel e1 e2 m : env_rel e1 e2 -> m_registered e1 m = m_registered e2 m.
+Proof.
+  intros H. induction m; cbn [m_registered m_sid]; try reflexivity; try assumption;
+  match goal with |- context [NM.find ?s (se_stores e1)] =>
+    pose proof (ER_stores _ _ H s) as Ss;
+    destruct (NM.find s (se_stores e1)); destruct (NM.find s (se_stores e2)); cbn in Ss; try contradiction; reflexivity end.
+Qed.
+
+Lemma join_ok_rel e1 e2 k ms : env_rel e1 e2 -> join_ok e1 k ms = join_ok e2 k ms.
+Proof.
+  intros H. unfold join_ok. rewrite (first_cands_rel e1 e2 NS.empty ms H).
+  assert (forallb (m_registered e1) ms = forallb (m_registered e2) ms) as ->; [|reflexivity].
+  induction ms as [|m r IH]; cbn [forallb]; [reflexivity|]. rewrite (m_registered_rel e1 e2 m H), IH. reflexivity.
+Qed.
+
+Lemma env_join_rel e1 e2 av eids hs k ms : env_rel e1 e2 ->
+  snd (env_join e1 av eids hs k ms) = snd (env_join e2 av eids hs k ms) /\
+  env_rel (fst (env_join e1 av eids hs k ms)) (fst (env_join e2 av eids hs k ms)).
+Proof.
+  intros H. unfold env_join. rewrite (join_ok_rel e1 e2 k ms H).
+  destruct (join_ok e2 k ms); cbn [negb]; [|cbn [fst snd]; auto].
+  assert (forall keys,
+    snd (let '(e1', r) := visit_keys av hs (is_lending k) eids ms keys e1 in (consume_cs ms e1', JItems r)) =
+    snd (let '(e1', r) := visit_keys av hs (is_lending k) eids ms keys e2 in (consume_cs ms e1', JItems r)) /\
+    env_rel (fst (let '(e1', r) := visit_keys av hs (is_lending k) eids ms keys e1 in (consume_cs ms e1', JItems r)))
+            (fst (let '(e1', r) := visit_keys av hs (is_lending k) eids ms keys e2 in (consume_cs ms e1', JItems r)))) as Hseq.
+  { intros keys. destruct (visit_keys_rel av hs (is_lending k) eids ms keys e1 e2 H) as [X1 X2].
+    destruct (visit_keys av hs (is_lending k) eids ms keys e1) as [a1 r1].
+    destruct (visit_keys av hs (is_lending k) eids ms keys e2) as [a2 r2]. cbn [fst snd] in *. subst.
+    split; [reflexivity | apply consume_cs_rel; assumption]. }
+  destruct k as [lim|lim|n|h|i]; cbn [is_lending] in *.
+  - rewrite (jkeys_rel e1 e2 eids ms H). destruct (jkeys e2 eids ms) as [keys|]; [apply Hseq | cbn [fst snd]; auto].
+  - rewrite (jkeys_rel e1 e2 eids ms H). destruct (jkeys e2 eids ms) as [keys|]; [apply Hseq | cbn [fst snd]; auto].
+  - rewrite (jkeys_rel e1 e2 eids ms H). destruct (jkeys e2 eids ms) as [keys|]; [| cbn [fst snd]; auto].
+    destruct (visit_keys_rel av hs false eids ms keys e1 e2 H) as [X1 X2].
+    destruct (visit_keys av hs false eids ms keys e1) as [a1 r1].
+    destruct (visit_keys av hs false eids ms keys e2) as [a2 r2]. cbn [fst snd] in *. subst. auto.
+  - destruct (pv_get hs (N.of_nat h)) as [ent|]; [|cbn [fst snd]; auto].
+    rewrite (all_have_rel e1 e2 eids ms (fst ent) H). destruct (all_have e2 eids ms (fst ent) && av_alive av ent); [|cbn [fst snd]; auto].
+    destruct (visit_members_rel av hs true eids ms (fst ent) e1 e2 H) as [X1 X2].
+    destruct (visit_members av hs true eids ms (fst ent) e1) as [a1 r1].
+    destruct (visit_members av hs true eids ms (fst ent) e2) as [a2 r2]. cbn [fst snd] in *. subst. auto.
+  - rewrite (all_have_rel e1 e2 eids ms i H). destruct (all_have e2 eids ms i); [|cbn [fst snd]; auto].
+    destruct (visit_members_rel av hs true eids ms i e1 e2 H) as [X1 X2].
+    destruct (visit_members av hs true eids ms i e1) as [a1 r1].
+    destruct (visit_members av hs true eids ms i e2) as [a2 r2]. cbn [fst snd] in *. subst. auto.
+Qed.
+
+Lemma env_csop_rel e1 e2 hs c : env_rel e1 e2 ->
+  snd (env_csop e1 hs c) = snd (env_csop e2 hs c) /\ env_rel (fst (env_csop e1 hs c)) (fst (env_csop e2 hs c)).
+Proof.
+  intros H. destruct c as [k|k h a|k l|k l|k|k]; cbn [env_csop]; rewrite ?(cs_get_rel e1 e2 _ H).
+  - cbn [fst snd]. split; [reflexivity | apply env_rel_cs_put; assumption].
+  - destruct (pv_get hs (N.of_nat h)); cbn [fst snd]; (split; [reflexivity|]); [apply env_rel_cs_put|]; assumption.
+  - destruct (res_pairs hs l); cbn [fst snd]; (split; [reflexivity|]); [apply env_rel_cs_put|]; assumption.
+  - destruct (res_pairs hs l); cbn [fst snd]; (split; [reflexivity|]); [apply env_rel_cs_put|]; assumption.
+  - cbn [fst snd]. split; [reflexivity | apply env_rel_cs_put; assumption].
+  - cbn [fst snd]. auto.
+Qed.
+
+(* the [ideal] flag is never changed by a join or a change-set operation *)
+Lemma ideal_jact e sid act : se_ideal (fst (env_jact e sid act)) = se_ideal e.
+Proof.
+  unfold env_jact. destruct (NM.find sid (se_stores e)) as [ms|]; [|reflexivity].
+  destruct (ms_jact ms act (se_cx e)) as [[ms' t] c]. reflexivity.
+Qed.
+
 Lemma env_drop_all_stuck l : forall c, (forall sid ms, In (sid, ms) l -> exists m, MInv ms m) ->
   cx_stuck (env_drop_all l c) = cx_stuck c.
 Proof.
@@ -143,7 +376,7 @@ Qed.
 
 Lemma env_drop_world_rel e1 e2 : env_rel e1 e2 -> env_rel (env_drop_world e1) (env_drop_world e2).
 Proof.
-  intros H. pose proof H as [T S K]. unfold env_drop_world. split; cbn [se_table se_stores se_cx]; auto.
+  intros H. pose proof H as [T S K C]. unfold env_drop_world. split; cbn [se_table se_stores se_cx]; auto.
   - intros sid. rewrite !find_empty. exact I.
   - rewrite !env_drop_all_stuck; [assumption| |].
     + intros sid ms Hin. apply in_elements_find in Hin. specialize (S sid). rewrite Hin in S.
@@ -266,12 +499,25 @@ Proof.
   rewrite ideal_delete_components; [apply (SW_i1 _ _ H) | apply (SW_i2 _ _ H)].
 Qed.
 
+Lemma ideal_join e av eids hs k ms : se_ideal (fst (env_join e av eids hs k ms)) = se_ideal e.
+Proof.
+  apply (env_join_pres (fun e' => se_ideal e' = se_ideal e)); try reflexivity.
+  - intros e' sid a H. rewrite ideal_jact. assumption.
+  - intros e' k' m H. exact H.
+  - intros e' H. exact H.
+Qed.
+Lemma ideal_csop e hs c : se_ideal (fst (env_csop e hs c)) = se_ideal e.
+Proof.
+  apply (env_csop_pres (fun e' => se_ideal e' = se_ideal e)); try reflexivity.
+  intros e' k' m H. exact H.
+Qed.
+
 (* one step of the specification machine, with the real kinds and with plain maps *)
 Theorem sstep_core_pair w1 w2 o cs : SW w1 w2 ->
   wout_sim (snd (sstep_core w1 o cs)) (snd (sstep_core w2 o cs)) /\ SW (fst (sstep_core w1 o cs)) (fst (sstep_core w2 o cs)).
 Proof.
   intros H. pose proof H as [L Hs Hl Ok E I1 I2].
-  destruct o as [k|k|n| |n|built k|k|h|hs|h| | |h|h| |h| |so| |lsid lh lv|lsid ll|lsid lh|prog|qso| ]; cbn [sstep_core].
+  destruct o as [k|k|n| |n|built k|k|h|hs|h| | |h|h| |h| |so| |lsid lh lv|lsid ll|lsid lh|prog|qso|jk jms|cso| ]; cbn [sstep_core].
   - destruct (s_create_pair false w1 w2 (hd_choice cs) H) as [E1 E2].
     destruct (s_create false w1 (hd_choice cs)) as [a1 e1]. destruct (s_create false w2 (hd_choice cs)) as [a2 e2].
     cbn [fst snd] in *. subst e2. split; [reflexivity|]. apply s_insert_comps_pair. assumption.
@@ -327,6 +573,16 @@ Proof.
   - cbn [fst snd]. split; [cbn; reflexivity|assumption].
   - rewrite L, Hs. cbn [fst snd]. split; [cbn; reflexivity|].
     apply SW_env_upd; auto; [apply env_sop_quiet_rel; assumption | |]; rewrite ideal_sop_quiet; assumption.
+  - rewrite L, Hs.
+    destruct (env_join_rel (s_env w1) (s_env w2) (l_view (s_life w2)) (eids_of (l_entities (s_life w2))) (s_hs w2) jk jms E) as [X1 X2].
+    pose proof (ideal_join (s_env w1) (l_view (s_life w2)) (eids_of (l_entities (s_life w2))) (s_hs w2) jk jms) as J1.
+    pose proof (ideal_join (s_env w2) (l_view (s_life w2)) (eids_of (l_entities (s_life w2))) (s_hs w2) jk jms) as J2.
+    destruct (env_join (s_env w1) _ _ _ jk jms) as [e1 o1]. destruct (env_join (s_env w2) _ _ _ jk jms) as [e2 o2].
+    cbn [fst snd] in *. subst o2. split; [reflexivity|]. apply SW_env_upd; auto; congruence.
+  - rewrite Hs. destruct (env_csop_rel (s_env w1) (s_env w2) (s_hs w2) cso E) as [X1 X2].
+    pose proof (ideal_csop (s_env w1) (s_hs w2) cso) as J1. pose proof (ideal_csop (s_env w2) (s_hs w2) cso) as J2.
+    destruct (env_csop (s_env w1) _ cso) as [e1 o1]. destruct (env_csop (s_env w2) _ cso) as [e2 o2].
+    cbn [fst snd] in *. subst o2. split; [apply wout_sim_refl|]. apply SW_env_upd; auto; congruence.
   - cbn [fst snd]. split; [reflexivity|assumption].
 Qed.
 
